@@ -278,3 +278,10 @@ def selftest():
         got = [e.get('id') for e in R.select(sel, soup)]
         if got != exp:
             raise common.HarnessError(f'reference self-test: {S.render_list(sel)!r} on {mk!r}: {got} != {exp}')
+
+
+def evidence_extra(merged):
+    complete = merged['extra'].get('box_complete', 0) == len(merged.get('shard_wall', []))
+    return {'exhaustive': bool(complete),
+            'box': 'all ordered forests with <=4 elements over names {a,b} x 3 gap fillings x all complex selectors '
+                   'with <=1 (quick) / <=2 (thorough) combinators over a 12-compound alphabet'}
